@@ -121,6 +121,42 @@ mut("c18_offset_before_apply", "C18 C19", ["state:(*Materializer).Apply#post.C19
 mut("c18_strict_inverted", "C18", ["state:(*Materializer).applyChange#post.C18.route.unknown"],
     [("state/materializer.go", "\t\tif m.cfg.strictSchema {\n\t\t\treturn fmt.Errorf(\"state: unknown entity type: %s\", msg.Type)\n\t\t}", "\t\tif !m.cfg.strictSchema {\n\t\t\treturn fmt.Errorf(\"state: unknown entity type: %s\", msg.Type)\n\t\t}")])
 
+# ---------------------------------------------------------------- C16 (reachability)
+mut("c16_dfs_first_only", "C16", ["(*upcastRegistry).hasCycleDFS#post.C16.dfs.closed"],
+    [("upcast.go", "\tfor _, upcaster := range r.upcasters[current] {\n\t\tif r.hasCycleDFS(upcaster.ToType, target, visited) {\n\t\t\treturn true\n\t\t}\n\t}\n\treturn false",
+      "\tif ups := r.upcasters[current]; len(ups) > 0 {\n\t\treturn r.hasCycleDFS(ups[0].ToType, target, visited)\n\t}\n\treturn false")])
+mut("c16_dfs_no_mark", "C16", ["(*upcastRegistry).hasCycleDFS#post.C16.dfs.visited"],
+    [("upcast.go", "\tvisited[current] = true\n\n\tfor _, upcaster", "\tfor _, upcaster")])
+mut("c16_cycle_check_swapped", "C16", ["(*upcastRegistry).wouldCreateCycle#post.C16.cycle.exact"],
+    [("upcast.go", "\treturn r.hasCycleDFS(toType, fromType, visited)", "\treturn r.hasCycleDFS(fromType, toType, visited)")])
+mut("c16_register_ignores_check", "C16", ["(*upcastRegistry).register#unlock.inv.upcastRegistry.mu.UpInv.acyclic"],
+    [("upcast.go", "\tif r.wouldCreateCycle(fromType, toType) {\n\t\treturn fmt.Errorf(\"eventbus: upcast would create circular dependency\")\n\t}\n",
+      "\tif r.wouldCreateCycle(fromType, toType) && len(r.upcasters[fromType]) == 0 {\n\t\treturn fmt.Errorf(\"eventbus: upcast would create circular dependency\")\n\t}\n")])
+# ---------------------------------------------------------------- sqlite SQL layer (C10/C11/C12)
+mut("sqlite_save_max", "C10", ["stores/sqlite:(*SQLiteStore).prepareStatements#loop1.inv.done.preserve"],
+    [("stores/sqlite/store.go", "DO UPDATE SET position = excluded.position,", "DO UPDATE SET position = MAX(position, excluded.position),")])
+mut("sqlite_read_wrong_stmt", "C10", ["stores/sqlite:(*SQLiteStore).Read#post.C10.sqlite.read.query"],
+    [("stores/sqlite/store.go", "\tif limit <= 0 {\n\t\trows, err = s.readFromStmt.QueryContext(ctx, position)", "\tif limit < 0 {\n\t\trows, err = s.readFromStmt.QueryContext(ctx, position)")])
+mut("sqlite_read_next_first", "C10", ["stores/sqlite:(*SQLiteStore).Read#post.C10.sqlite.read.next"],
+    [("stores/sqlite/store.go", "\t\tnextOffset = events[len(events)-1].Offset", "\t\tnextOffset = events[0].Offset")])
+mut("sqlite_save_swapped_args", "C10", ["stores/sqlite:(*SQLiteStore).SaveOffset#post.C10.sqlite.save.args"],
+    [("stores/sqlite/store.go", "\t_, err = s.saveOffsetStmt.ExecContext(ctx, subscriptionID, position)", "\t_, err = s.saveOffsetStmt.ExecContext(ctx, position, subscriptionID)")])
+mut("sqlite_load_swallows_error", "C10", ["stores/sqlite:(*SQLiteStore).LoadOffset#post.C10.sqlite.load.found"],
+    [("stores/sqlite/store.go", "\treturn formatOffset(position), nil\n}", "\treturn formatOffset(position + 1), nil\n}")])
+mut("sqlite_batched_cursor_by_count", "C11", ["stores/sqlite:(*SQLiteStore).streamBatched#loop1.inv.C11.batched.cursor.preserve"],
+    [("stores/sqlite/store.go", "\t\tcurrentPos = lastPos\n", "\t\tcurrentPos += int64(batchCount)\n")])
+mut("sqlite_batch_no_rows_err", "C11", ["stores/sqlite:(*SQLiteStore).streamBatch#post.C11.batch.completeOnlyIfNoErr"],
+    [("stores/sqlite/store.go", "\tif err := rows.Err(); err != nil {\n\t\trows.Close() // Best effort close, iteration error takes precedence", "\tif err := rows.Err(); err != nil && batchCount == 0 {\n\t\trows.Close() // Best effort close, iteration error takes precedence")])
+# ---------------------------------------------------------------- decode target reuse (merge semantics of Unmarshal)
+mut("c18_scratch_decode_target", "C18", ["state:(*typedCollectionApplier[T]).applyChange#post.C18.applier.set"],
+    [("state/materializer.go", "type typedCollectionApplier[T any] struct {\n\tcollection *TypedCollection[T]\n}", "type typedCollectionApplier[T any] struct {\n\tcollection *TypedCollection[T]\n\tscratch    T\n}"),
+     ("state/materializer.go", "\t\tvar value T\n\t\tif err := json.Unmarshal(msg.Value, &value); err != nil {", "\t\tif err := json.Unmarshal(msg.Value, &a.scratch); err != nil {"),
+     ("state/materializer.go", "\t\ta.collection.store.Set(key, value)", "\t\ta.collection.store.Set(key, a.scratch)"),
+    ])
+# ---------------------------------------------------------------- C03 scans
+mut("c03_unguarded_lastoffset_read", "C03", ["(*EventBus).persistEvent#guard.read.EventBus.storeMu"],
+    [("persist.go", "\tbus.storeMu.Unlock()\n\n\t// Observability: Track persistence complete", "\tbus.storeMu.Unlock()\n\t_ = bus.lastOffset\n\n\t// Observability: Track persistence complete")])
+
 def main():
     os.makedirs(OUT, exist_ok=True)
     for f in os.listdir(OUT):
